@@ -26,7 +26,13 @@ SOCF = "wannierberri/w90files/soc.py"
 SSOC = "wannierberri/system/system_soc.py"
 SYSR = "wannierberri/system/system_R.py"
 RVEC = "wannierberri/fourier/rvectors.py"
+INTP = "wannierberri/system/interpolate.py"
 MUTANTS = [
+    dict(prop="C26", name="interpolate: centres mixed with swapped weights", file=INTP, old="new_system.wannier_centers_cart = (1 - alpha) * self.system0.wannier_centers_cart + alpha * self.system1.wannier_centers_cart", new="new_system.wannier_centers_cart = alpha * self.system0.wannier_centers_cart + (1 - alpha) * self.system1.wannier_centers_cart"),
+    dict(prop="C26", name="init: system1 re-embedded with system0 map", file=INTP, old="for sys, iRmap  in zip([self.system0, self.system1], [iRvec_map_0, iRvec_map_1]):", new="for sys, iRmap  in zip([self.system0, self.system1], [iRvec_map_0, iRvec_map_0 if len(iRvec_map_0) == len(iRvec_map_1) else iRvec_map_1]):"),
+    dict(prop="C26", name="init: one-sided keys kept in system0", file=INTP, old="                if key in sys._XX_R:\n                    del sys._XX_R[key]", new="                if key in sys._XX_R and sys is self.system1:\n                    del sys._XX_R[key]"),
+    dict(prop="C26", name="interpolate: uses (1-alpha)^2 PRESERVING endpoints but not affine", file=INTP, old="new_system._XX_R[key] = (1 - alpha) * self.system0._XX_R[key] + alpha * self.system1._XX_R[key]", new="new_system._XX_R[key] = (1 - alpha) * (1 - alpha) * self.system0._XX_R[key] + alpha * alpha * self.system1._XX_R[key]"),
+    dict(prop="C26", name="init: pointgroup choice inverted", file=INTP, old="        if use_pointgroup == 1:\n            self.pointgroup = self.system1.pointgroup", new="        if use_pointgroup == 1:\n            self.pointgroup = self.system0.pointgroup"),
     dict(prop="C16", name="EnergyResult.transform: TR/Inv slots swapped", file=RES_E, old="""                                      transformTR=self.transformTR,
                                       transformInv=self.transformInv),
             smoothers=self.smoothers,""", new="""                                      transformTR=self.transformInv,
